@@ -230,6 +230,13 @@ func runMutant(repo string, p *rules.Property, name string) int {
 		return 4
 	}
 	mutated := strings.Replace(string(src), m.Old, m.New, 1)
+	if m.Old2 != "" {
+		if strings.Count(mutated, m.Old2) != 1 {
+			fmt.Printf("MUTANT %s skipped: second search text occurs %d times in %s\n", name, strings.Count(mutated, m.Old2), m.File)
+			return 4
+		}
+		mutated = strings.Replace(mutated, m.Old2, m.New2, 1)
+	}
 	res, _, err := runOnce(load.Config{Dir: repo, Overlay: map[string][]byte{file: []byte(mutated)}}, p, "quick")
 	if err != nil {
 		fmt.Printf("MUTANT %s skipped: mutant does not type-check: %v\n", name, oneLine(err.Error()))
